@@ -91,11 +91,10 @@ Proof.
   assert (Hnr : count_resets m (x_log s) = 0%nat) by (apply count_resets_none; rewrite Hlu; apply (usr_no_reset m m lu Uu)).
   destruct (shut (w_mod (x_w s) m)) as [r|] eqn:Es; cbn [fst snd].
   - cbn [some_b] in cq.
-    assert (Hmod : forall w0 x1, w_mod (match r with Some t => set_fes (set_mod w0 m x1) (fes_add t (EvRestart m) (w_fes (set_mod w0 m x1)))
-              | None => set_mod w0 m x1 end) m = x1).
-    { intros w0 x1. destruct r; wsimpl; rewrite N.eqb_refl; reflexivity. }
-    cbn [inc bud tfin nw set_nw]. rewrite Hmod. cbn [inc]. split; [|split; [|split]].
-    + unfold TI. rewrite Hmod. cbn [ready timers shut]. repeat split; constructor.
+    assert (Hmod : forall w2, w_mod (match r with Some t => set_fes w2 (fes_add t (EvRestart m) (w_fes w2)) | None => w2 end) m = w_mod w2 m)
+      by (intros w2; destruct r; reflexivity).
+    cbn [inc bud hnd nw set_nw]. rewrite Hmod. cbn [w_mod set_fin set_mod]. rewrite N.eqb_refl. cbn [inc]. split; [|split; [|split]].
+    + unfold TI. rewrite Hmod. cbn [w_mod set_fin set_mod]. rewrite N.eqb_refl. cbn [ready timers shut]. repeat split; constructor.
     + apply Forall_app. split; [exact cg|]. apply Forall_app. split; [apply sys_tag|constructor; [exact I|constructor]].
     + rewrite !count_resets_app, Hnr, (count_resets_none m _ (cancelled_no_reset m m _ _)).
       unfold count_resets. cbn [filter is_reset]. rewrite N.eqb_refl. cbn [length]. rewrite ci. lia.
